@@ -347,4 +347,28 @@ theorem budget_share_length {α} (bd : Budget) (g : List α) :
 example : (distribute ⟨some 3, some 4⟩ [[0, 1], [2, 3, 4], [5, 6, 7, 8]]).flatten = [3, 4, 5, 6] := by
   decide
 
+/-! ## (T) the source expressions the model mirrors are still what they were -/
+
+open ArrowModel.Generated.C06 in
+/-- **Shape tie.**  Every critical expression the theorems above are about — the mask
+`split_off` count bookkeeping, `split_off_selectors`, `offset_selectors`, `limit_selectors`,
+`offset_mask`/`limit_mask` and their count propagation, the `and_then_iter` step, the
+`next_inner` selector loop, the `read_mask_batch` loop, the offset-before-limit order of
+`build_limited`, the predicate limit truncation/padding, the `RowGroupFrontier` walk
+(`row_count() == 0`, `split_off(row_count)`, budget from the *selected* rows) and
+`RowBudget::{rows_after, advance, apply_to_plan}` — is found verbatim (modulo whitespace) in
+the current source by `tools/translate.py`.  If any of them is edited, its item is LOST and
+this obligation fails, forcing the model and the proofs to be re-examined. -/
+theorem source_shape_ties :
+    SHAPE_SPLIT_OFF_MASK_COUNT_lost = false ∧ SHAPE_SPLIT_OFF_SELECTORS_lost = false ∧
+    SHAPE_OFFSET_SELECTORS_lost = false ∧ SHAPE_LIMIT_SELECTORS_lost = false ∧
+    SHAPE_OFFSET_LIMIT_MASK_lost = false ∧ SHAPE_OFFSET_LIMIT_COUNT_lost = false ∧
+    SHAPE_AND_THEN_ITER_lost = false ∧ SHAPE_NEXT_INNER_lost = false ∧
+    SHAPE_READ_MASK_BATCH_lost = false ∧ SHAPE_BUILD_LIMITED_ORDER_lost = false ∧
+    SHAPE_PREDICATE_LIMIT_lost = false ∧ SHAPE_FRONTIER_lost = false ∧
+    SHAPE_FRONTIER_PLAN_lost = false ∧ SHAPE_BUDGET_lost = false ∧
+    BUDGET_EXHAUSTED_LIMIT_lost = false ∧ BUDGET_DEFAULT_OFFSET_lost = false ∧
+    BUDGET_ADVANCE_SKIP_WHEN_lost = false ∧ DEFAULT_AUTO_THRESHOLD_lost = false := by
+  decide
+
 end ArrowModel.C06
